@@ -1933,7 +1933,11 @@ class MacroExpander:
 
                 if isinstance(macro_lookup, MacroFunction):
                     paren = self.peek_tok()
-                    if not paren or paren.token != "(":
+                    if (
+                        not paren
+                        or not isinstance(paren, Punctuator)
+                        or paren.token != "("
+                    ):
                         self.parser_stack[-1].pos -= 1
                         self.replace_tok(ctok)
                         continue
@@ -1945,6 +1949,12 @@ class MacroExpander:
 
                     while True:
                         tok = self.consume_tok()
+                        # Only punctuators separate and delimit arguments:
+                        # a string or character constant may spell , ( or ).
+                        if not isinstance(tok, Punctuator):
+                            current_arg.append(tok)
+                            continue
+
                         if tok.token == "," and open_paren_count == 1:
                             args.append(current_arg)
                             current_arg = []
